@@ -21,6 +21,7 @@ sound speed (`p_rho`: ρ = 16 ρ₀ c / (9 D), p = 16 ρ₀ D² (c/D)³ / 27, e 
 The half-plane hypotheses are those of the hand model EPV/Model/EHEP.lean (tied to the polygon test).
 -/
 import EPV.Lemmas.EHEP
+import EPV.Lemmas.Bridge.DetonTactics
 
 set_option linter.all false
 
@@ -35,6 +36,7 @@ theorem ehep_admissible_of_cs (p : EHEP.P) (x t : ℝ) (ha : Accepted p) (hγ : 
   have hD : 0 < p.D := ha.1
   have hρ : 0 < p.rho_0 := ha.2.1
   have hg : 0 < p.gamma - 1 := by linarith
+  have hD' : p.D ≠ 0 := hD.ne'
   -- the fluid regions share one argument: ρ = k c, p = k' c³, e = p/ρ/(γ-1)
   have fluid : ∀ c ρ pr e : ℝ, 0 ≤ c → ρ = 16 / 9 * p.rho_0 * c / p.D →
       pr = 16 / 27 * p.rho_0 * p.D ^ 2 * (c / p.D) ^ 3 → e = pr / ρ / (p.gamma - 1) → 0 ≤ ρ ∧ 0 ≤ pr ∧ 0 ≤ e := by
@@ -45,26 +47,26 @@ theorem ehep_admissible_of_cs (p : EHEP.P) (x t : ℝ) (ha : Accepted p) (hγ : 
   by_cases h1 : p.region = 1
   · obtain ⟨a1, a2, a3, a4, a5⟩ := region_I p x t ha h1
     rw [a4] at hcs; rw [a1, a2, a3]
-    exact fluid _ _ _ _ hcs (by simp only [epv_leaf]) (by simp only [epv_leaf]) (by simp only [epv_leaf])
+    exact fluid _ _ _ _ hcs (by simp only [epv_leaf]; epv_deton_feq) (by simp only [epv_leaf]; epv_deton_feq) (by simp only [epv_leaf]; epv_deton_feq)
   by_cases h2 : p.region = 2
   · by_cases hc : EHEP.c10 p x t
     · obtain ⟨a1, a2, a3, a4, a5⟩ := region_II p x t ha h2 hc
       rw [a4] at hcs; rw [a1, a2, a3]
-      exact fluid _ _ _ _ hcs (by simp only [epv_leaf]) (by simp only [epv_leaf]) (by simp only [epv_leaf])
+      exact fluid _ _ _ _ hcs (by simp only [epv_leaf]; epv_deton_feq) (by simp only [epv_leaf]; epv_deton_feq) (by simp only [epv_leaf]; epv_deton_feq)
     · obtain ⟨a1, a2, a3, a4, a5⟩ := region_II_clamped p x t ha h2 hc
       rw [a1, a2, a3]; exact ⟨le_rfl, le_rfl, le_rfl⟩
   by_cases h3 : p.region = 3
   · obtain ⟨a1, a2, a3, a4, a5⟩ := region_III p x t ha h3
     rw [a4] at hcs; rw [a1, a2, a3]
-    exact fluid _ _ _ _ hcs (by simp only [epv_leaf]) (by simp only [epv_leaf]) (by simp only [epv_leaf])
+    exact fluid _ _ _ _ hcs (by simp only [epv_leaf]; epv_deton_feq) (by simp only [epv_leaf]; epv_deton_feq) (by simp only [epv_leaf]; epv_deton_feq)
   by_cases h4 : p.region = 4
   · obtain ⟨a1, a2, a3, a4, a5⟩ := region_IV p x t ha h4
     rw [a4] at hcs; rw [a1, a2, a3]
-    exact fluid _ _ _ _ hcs (by simp only [epv_leaf]) (by simp only [epv_leaf]) (by simp only [epv_leaf])
+    exact fluid _ _ _ _ hcs (by simp only [epv_leaf]; epv_deton_feq) (by simp only [epv_leaf]; epv_deton_feq) (by simp only [epv_leaf]; epv_deton_feq)
   by_cases h5 : p.region = 5
   · obtain ⟨a1, a2, a3, a4, a5⟩ := region_V p x t ha h5
     rw [a4] at hcs; rw [a1, a2, a3]
-    exact fluid _ _ _ _ hcs (by simp only [epv_leaf]) (by simp only [epv_leaf]) (by simp only [epv_leaf])
+    exact fluid _ _ _ _ hcs (by simp only [epv_leaf]; epv_deton_feq) (by simp only [epv_leaf]; epv_deton_feq) (by simp only [epv_leaf]; epv_deton_feq)
   by_cases h6 : p.region = 6
   · obtain ⟨a1, a2, a3, a4, a5⟩ := region_00 p x t ha h6
     rw [a1, a2, a3]; exact ⟨le_rfl, le_rfl, le_rfl⟩
